@@ -477,6 +477,49 @@ def dtype_item(item):
     return res
 
 
+def scale_item(item):
+    """concrete part (nothing symbolic): interpolation is linear in the data, so data of any admissible magnitude (1e-200 ... 1e250, and
+    data whose variation is tiny next to their mean) must be reproduced at the interpolation points to rounding, in 1-D and in 2-D"""
+    (d1, per1, fam1, n1), (d2, per2, fam2, n2), path = item
+    res = H.worker_result()
+    m = numenv.mods()
+    numenv.disable()
+    try:
+        b1, b2 = breaks_family(fam1, n1), breaks_family(fam2, n2)
+        B1, B2 = float_space(m, d1, per1, b1, path == 'cu'), float_space(m, d2, per2, b2, path == 'cu')
+        rng = np.random.RandomState(4)
+        base2 = rng.rand(B1.nbasis, B2.nbasis) + 0.5
+        x1, x2 = np.array(B1.greville, dtype=float), np.array(B2.greville, dtype=float)
+        for label, f in (('1e250', lambda a: a * 1e250), ('1e160', lambda a: a * 1e160), ('1e-200', lambda a: a * 1e-200), ('1e-9', lambda a: a * 1e-9),
+                         ('1 + 1e-7 x', lambda a: 1.0 + 1e-7 * a), ('-4e5 + 1e-3 x', lambda a: -4e5 + 1e-3 * a)):
+            res['obligations'] += 1
+            U = f(base2)
+            it = m['si'].SplineInterpolator2D(B1, B2)
+            sp = m['spl'].Spline2D(B1, B2)
+            it.compute_interpolant(U, sp)
+            got2 = np.array([[float(sp.eval(float(a), float(b))) for b in x2] for a in x1])
+            it1 = m['si'].SplineInterpolator1D(B1)
+            s1 = m['spl'].Spline1D(B1)
+            it1.compute_interpolant(U[:, 0].copy(), s1)
+            got1 = np.array([float(s1.eval(float(a))) for a in x1])
+            spread = float(np.max(U) - np.min(U))
+            tol = 1e-9 * max(spread, 1e-6 * float(np.max(np.abs(U))))
+            dev = max(float(np.max(np.abs(got2 - U))), float(np.max(np.abs(got1 - U[:, 0]))))
+            if not (dev <= tol):
+                res['violations'].append(('interp:scale', 'data of the form %s are not reproduced at the interpolation points: deviation %.3g (variation of the data %.3g) %r' % (
+                    label, dev, spread, item), dict(kind='scale', item=str(item), data=label)))
+            else:
+                res['discharged'] += 1
+                res['nontrivial'].append('scale|%s|%r' % (label, item))
+    except Exception as e:
+        res['obligations'] += 1
+        res['violations'].append(('interp:scale', 'admissible finite data: %s: %s %r' % (type(e).__name__, str(e)[:150], item), dict(kind='scale', item=str(item))))
+    finally:
+        numenv.enable()
+        numenv.disable()
+    return res
+
+
 CANARY_COMPLEX = ('complex interpolator solves with the real routine', 'si', [("                self._solveFunc = zgbtrs\n", "                self._solveFunc = dgbtrs\n")])
 
 
@@ -562,6 +605,7 @@ def main():
     for it_ in [((3, True, 'uniform', 4), (3, False, 'uniform', 2), 'cu'), ((2, True, 'graded', 3), (3, False, 'irregular', 2), 'nu'),
                 ((2, False, 'irregular', 2), (3, True, 'graded', 4), 'nu')]:
         run.merge(dtype_item(it_))
+        run.merge(scale_item(it_))
     for cn in CANARIES + [CANARY_COMPLEX]:
         hit = caught.get(cn[0], False)
         run.canaries.append(dict(name=cn[0], detected=hit))
